@@ -60,6 +60,17 @@ def gen_module(rng, cid, n_items=None):
         if r < 0.3:
             name = "vf%d" % k
             k += 1
+            if rng.random() < 0.15:
+                # cfg-alternatives: two visible fns of the same name, one per configuration (each is a fn of the module, each gets
+                # its own - equally gated - method); adjacent or with other items in between
+                pair = ["#[cfg(any())]", "#[cfg(not(any()))]"] if rng.random() < 0.5 else ["#[cfg(all())]", "#[cfg(not(all()))]"]
+                items.append(pair[0] + "\n" + vis_fn(rng, name, i))
+                truth.append(name)
+                if rng.random() < 0.4:
+                    items.append(rng.choice(soup.MOD_ITEMS_OTHER))
+                items.append(pair[1] + "\n" + vis_fn(rng, name, i))
+                truth.append(name)
+                continue
             items.append(vis_fn(rng, name, i))
             truth.append(name)
         elif r < 0.4:
